@@ -74,6 +74,11 @@ let gen ~(tier : string) ~(seed : int) ~(emit : Sexp.t -> unit) : unit =
     end
   done
 
+let layer_has_hole = function
+  | L [ A "lam"; a ] -> has_hole (term_of_sexp a)
+  | L (A "let" :: ds) -> List.exists (function L [ a; _ ] -> has_hole (term_of_sexp a) | _ -> false) ds
+  | _ -> false
+
 let check (case : Sexp.t) (res : Sexp.t) : [ `Ok | `Mismatch of string | `Property of string ] * bool =
   let precondition =
     (match case with
@@ -104,6 +109,10 @@ let check (case : Sexp.t) (res : Sexp.t) : [ `Ok | `Mismatch of string | `Proper
            | Some false -> (`Property "the type obtained under the context, re-wrapped by the peeled binders, is not definitionally equal to the closed program's type", true)
            | None -> (`Ok, false))
         | L (A "err" :: _), L (A "err" :: _) -> (`Ok, true)
+        | L (A "ok" :: _), L (A "err" :: _) when List.exists layer_has_hole layers ->
+          (* an unannotated peeled binder gets its type only from checking its definition, which the
+             closed run does and the context built by hand cannot: no corresponding context exists *)
+          (`Ok, false)
         | L (A "ok" :: _), L (A "err" :: _) -> (`Property "the closed program is accepted but its body is rejected under the corresponding context", true)
         | L (A "err" :: _), L (A "ok" :: _) ->
           (* the closed program may also be rejected for a fault in a peeled annotation/definition, which the open check does not see *)
